@@ -169,9 +169,20 @@ def judge(iface, table, path, r, routers, root=""):
     types = {t[1]: t[2] for t in toks if t[0] == "param"}
     want = {k: RF.denote(types[k], v) for k, v in params_text.items()}
     if gparams != want or any(type(gparams[k]) is not type(want[k]) for k in want):
-        r.violation("wrong-params", w, f"{iface} Router{tuple(table)} on {w['path']!r}: params {gparams!r:.200}, denoted {want!r:.200}")
+        r.violation("wrong-params", w, f"{iface} Router{tuple(table)} on {w['path']!r}: params {srepr(gparams)}, denoted {srepr(want)}")
         return
     r.add("outcomes", (i, tuple(sorted(types.items()))))
+
+
+def srepr(d):
+    """repr of a parameter dictionary that may hold an integer too long to print"""
+    out = []
+    for k, v in d.items():
+        try:
+            out.append(f"{k!r}: {v!r:.60}")
+        except ValueError:
+            out.append(f"{k!r}: <{type(v).__name__} too long to print>")
+    return "{" + ", ".join(out) + "}"
 
 
 def thread_family(r, tier):
